@@ -392,7 +392,9 @@ impl Sys {
     if value == 1 { if !self.down.contains(&code) { self.down.push(code); } } else { self.down.retain(|c| *c != code); }
     if self.noise >= 1 { self.kbytes.push_back(frame(4, 4, code as i32)); }            // MSC_SCAN
     if self.noise >= 2 { self.kbytes.push_back(frame(1, self.unknown_code, 1)); }       // a key the tool has no name for
-    if self.noise >= 2 { self.kbytes.push_back(frame(0, 3, 0)); }                       // SYN_DROPPED: the client buffer was overrun; the records after it are genuine
+    // SYN_DROPPED: the client buffer was overrun; the records after it are genuine, and the newest of them is typically a release
+    // (in front of releases only: a reader that throws the following records away then loses releases and keeps presses)
+    if self.noise >= 2 && value == 0 { self.kbytes.push_back(frame(0, 3, 0)); }
     self.kbytes.push_back(frame(1, code, value));
     if self.noise >= 1 { self.kbytes.push_back(frame(0, 0, 0)); }                       // SYN_REPORT
     if self.noise >= 2 && value == 1 { self.kbytes.push_back(frame(1, code, 2)); self.kbytes.push_back(frame(0, 0, 0)); }  // auto-repeat
